@@ -1,0 +1,42 @@
+// Copyright 2024 Circle Internet Group, Inc.  All rights reserved.
+//
+// Licensed under the Apache License, Version 2.0 (the "License");
+// you may not use this file except in compliance with the License.
+// You may obtain a copy of the License at
+//
+//     http://www.apache.org/licenses/LICENSE-2.0
+//
+// Unless required by applicable law or agreed to in writing, software
+// distributed under the License is distributed on an "AS IS" BASIS,
+// WITHOUT WARRANTIES OR CONDITIONS OF ANY KIND, either express or implied.
+// See the License for the specific language governing permissions and
+// limitations under the License.
+//
+// SPDX-License-Identifier: Apache-2.0
+
+package keeper
+
+import (
+	"google.golang.org/grpc/codes"
+	"google.golang.org/grpc/status"
+
+	storetypes "cosmossdk.io/store/types"
+	"github.com/cosmos/cosmos-sdk/types/query"
+)
+
+// paginate calls query.Paginate and returns an InvalidArgument error if the
+// SDK paginator panics on the request instead of letting the panic escape the
+// query handler (its reverse iteration panics when the page key is the last
+// key under the prefix).
+func paginate(
+	prefixStore storetypes.KVStore,
+	pageRequest *query.PageRequest,
+	onResult func(key []byte, value []byte) error,
+) (pageRes *query.PageResponse, err error) {
+	defer func() {
+		if r := recover(); r != nil {
+			pageRes, err = nil, status.Errorf(codes.InvalidArgument, "invalid pagination request: %v", r)
+		}
+	}()
+	return query.Paginate(prefixStore, pageRequest, onResult)
+}
